@@ -205,9 +205,9 @@ class FullLib(Lib):
             # in-place overwrite from offset 0: the new lines followed by whatever tail of the old
             # content is longer than them (removed by the truncate() that must follow)
             mid = ctx.fresh("midlines", T.Lines)
-            x = z3.Const("x!mid", T.S)
-            ctx.assume(z3.ForAll([x], z3.And(z3.Select(mid, x) >= z3.Select(seq.info["m"], x)),
-                                 patterns=[z3.Select(mid, x)]))
+            newm = seq.info["m"]
+            ctx.ax.__dict__.setdefault("pointwise", []).append(
+                (mid, lambda i, mid=mid, newm=newm: z3.Select(mid, i) >= z3.Select(newm, i)))
             self.fs_set(it, loc, T.LinesF(mid))
             h.f["pending_truncate"] = seq.info["m"]
             h.f["pos"] = ctx.fresh("pos", T.I)
@@ -644,10 +644,9 @@ class FullLib(Lib):
             raise Undecided(f"list.{name}")
         if isinstance(obj, VDict):
             if name == "get":
-                key = args[0]
-                for g, k, v in obj.entries:
-                    if it.ctx.branch(z3.And(g, self.eq(it, k, key))):
-                        return v
+                r = self.dict_lookup(it, obj, args[0])
+                if r is not None:
+                    return r
                 return args[1] if len(args) > 1 else NONE
             if name == "keys":
                 return VList([k for _, k, _ in obj.entries], [g for g, _, _ in obj.entries])
